@@ -1602,4 +1602,8 @@ LEVEL_NOTE = (
     "equivalent classes whose rules differ in constructor is open. "
     "Not modelled: expansion of the searchers, EquivalenceRuleExtractor (answers of _eq_path_matches replayed as a "
     "table), CombinatorialSpecification construction (C02's model, bridged as said) and Isomorphism (C12)."
+    " The path contract fpath_ok that the rule-set theorems assume of the path oracle is a THEOREM for the equivalence "
+    "database: C13_path_contract_from_equivalence_database (db[.] and find_path of the EquivalenceDB model after any history "
+    "over natural labels satisfy it, and every path step is a recorded edge; Spec/ExtractorEquiv.v, via C06_path_function); "
+    "that the finder's db_rep IS db[.] of that state is read off the real run, not proved."
 )
